@@ -167,7 +167,7 @@ def handle : List String → String
         | none => "wire=error valid=0"
     | _, _, _ => "bad-op"
   | ["limits"] =>
-    s!"line={genCfg.maxLine} body={genCfg.maxBody} bodyerr={boolStr genCfg.bodyErrReturned} unknownpkt={boolStr genCfg.unknownChanPacket} rtprecover={boolStr genCfg.rtpRecover}"
+    s!"line={genCfg.maxLine} body={genCfg.maxBody} bodyerr={boolStr genCfg.bodyErrReturned} unknownpkt={boolStr genCfg.unknownChanPacket} badhdrpkt={boolStr genCfg.badHeaderPacket} rtprecover={boolStr genCfg.rtpRecover}"
   | _ => "bad-op"
 
 end IpcHub.Drv.C14
